@@ -6,6 +6,7 @@ import re
 
 import core
 from core import fseq, fseqs, fbool, pseq, pseqs, guarded
+import used
 import c13 as _c13
 
 PROP = "C19"
@@ -80,22 +81,64 @@ def _hfs_chunk(bases):
     return [hfs_of(B) for B in bases]
 
 
+def _B(tok):
+    """the basis of a line as a list of *used* Perm objects (hashed, compared, searched with), built once per line"""
+    return [used.obj((i, p), lambda p=p: Perm(p), lambda o: used.warm_perm(o, 0)) for i, p in enumerate(pseqs(tok))]
+
+
+def _again(strats, long):
+    """the strategy objects a search returned are asked again: each of them must still apply (the slow one is
+    not asked again)"""
+    for s in strats:
+        if type(s).__name__ == "FinitelyManySimplesStrategy":
+            continue
+        if s.applies() is not True:
+            return "UNSTABLE:returned-strategy-no-longer-applies:" + type(s).__name__
+    return None
+
+
 def impl(op, a):
+    used.begin()
     if op == "find":
-        B = [Perm(p) for p in pseqs(a[2])]
         long = a[0] == "T"
 
         def f():
-            res = _names(ES.find_strategies(B, long))
+            strats = ES.find_strategies(_B(a[2]), long)
+            res = _names(strats)
+            bad = _again(strats, long)
+            if bad:
+                return bad
             if long and ("FinitelyManySimplesStrategy" in res) != (a[1] == "T"):
                 return "HFS-INPUT-STALE " + res
             return res
-        return guarded(f)
+        r1 = guarded(f)
+        # a deterministic fifth (slow search: eighth) of the searches is run once more on the same basis objects
+        if not used.sel(op, a, 8 if long else 5):
+            return r1
+        used.T.rewind()
+        r2 = guarded(f)
+        return r1 if r1 == r2 else used.unstable(r1, r2)
     if op == "applies":
-        B = [Perm(p) for p in pseqs(a[2])]
-        return guarded(lambda: fbool(_cls(a[0])(B).applies()))
+        def g():
+            s = _cls(a[0])(_B(a[2]))
+            r = fbool(s.applies())
+            if a[0] != "FinitelyManySimplesStrategy":
+                # the same strategy object asked again, and a second object on the same basis objects
+                r2 = fbool(s.applies())
+                r3 = fbool(_cls(a[0])(list(s.basis)).applies())
+                if not r == r2 == r3:
+                    return used.unstable(r, r2 + "|" + r3)
+            return r
+        return guarded(g)
     if op == "valid":
-        return guarded(lambda: fbool(getattr(CS, a[0]).is_valid_extension(Perm(pseq(a[1])))))
+        def h():
+            fn = getattr(CS, a[0]).is_valid_extension
+            p = used.obj(("P", a[1]), lambda: Perm(pseq(a[1])), lambda o: used.warm_perm(o, 1))
+            if len(p) >= 1 and used.is_perm(p):
+                used.quiet(fn, p.reverse())              # a DIFFERENT nearby argument first
+                used.quiet(fn, Perm(tuple(p) + (len(p),)))
+            return used.twice(lambda: fbool(fn(p)))
+        return guarded(h)
     if op == "sym8find":
         B = pseqs(a[2])
         long = a[0] == "T"
